@@ -22,6 +22,5 @@ INVARIANTS
   Rule2Exact
   Rule3Exact
   ReduciblePairs
-  DefinitionsSane
   Export
 CHECK_DEADLOCK FALSE
